@@ -82,13 +82,29 @@ class Extractor:
         k = e.get("k")
         if k == "Block":
             env = dict(env)
+            steps = []          # explicit sequencing: `let (rest, x) = p(input)?; let (rest, y) = q(rest)?; .. Ok((rest, ..))`
             for s in e.get("stmts", []):
-                if s.get("s") == "Let" and s["pat"].get("p") == "Bind" and "init" in s:
+                if s.get("s") == "Let" and s["pat"].get("p") == "Bind" and "init" in s and not steps:
                     env[s["pat"]["lid"]] = self.value(s["init"], env)
-                else:
-                    raise Unknown("%s: statement in parser body" % self.cur_fn)
+                    continue
+                step = self._sequencing_step(s, env)
+                if step is not None:
+                    term, rest_lid = step
+                    steps.append(term)
+                    for lid, v in list(env.items()):
+                        if v is INPUT:
+                            env[lid] = ("consumed",)      # the old input is no longer the position of the parser
+                    env[rest_lid] = INPUT
+                    continue
+                if steps and self._is_pure_or_error_exit(s):
+                    continue
+                raise Unknown("%s: statement in parser body" % self.cur_fn)
             if "expr" not in e:
                 raise Unknown("%s: parser body without tail expression" % self.cur_fn)
+            if steps:
+                if not self._tail_returns_rest(e["expr"], env):
+                    raise Unknown("%s: the tail of a sequenced parser body does not return the current rest" % self.cur_fn)
+                return ("seq", steps) if len(steps) > 1 else steps[0]
             return self.body_term(e["expr"], env)
         if k == "Call":
             args = e["args"]
@@ -122,6 +138,52 @@ class Extractor:
                 return self.parser(e["recv"], env)
             raise Unknown("%s: method %s in parser body" % (self.cur_fn, m))
         raise Unknown("%s: expression kind %s in parser body" % (self.cur_fn, k))
+
+    def _sequencing_step(self, s, env):
+        """`let (rest, value) = <parser applied to the current input>?;` -> (term, lid of the new rest)"""
+        if s.get("s") != "Let" or "init" not in s or s["pat"].get("p") != "Tuple" or len(s["pat"].get("pats", [])) != 2:
+            return None
+        r = s["pat"]["pats"][0]
+        init = s["init"]
+        if init.get("k") != "Match" or init.get("src") != "Try" or r.get("p") not in ("Bind",):
+            return None
+        sc = init["scrut"]
+        inner = sc["args"][0] if sc.get("k") == "Call" and sc.get("args") else None
+        if inner is None:
+            return None
+        return self.body_term(inner, env), r["lid"]
+
+    def _is_pure_or_error_exit(self, s):
+        """between two steps: a `let` that calls no parser, or `if cond { return Err(..) }` (a constraint on the values parsed so
+        far: like `verify`, read as not changing the language)"""
+        x = s.get("init") if s.get("s") == "Let" else s.get("e")
+        if not isinstance(x, dict):
+            return s.get("s") == "Let"
+        for n in walk(x):
+            if n.get("k") == "Call" and n["f"].get("k") == "Path":
+                fid = n["f"].get("rid") or n["f"].get("id")
+                g = self.facts.fns.get(fid)
+                if g is not None and "nom::Err<" in str(g.get("sig", "")):
+                    return False
+            if n.get("k") == "Ret":
+                v = n.get("v") or {}
+                if not (v.get("k") == "Call" and str(v["f"].get("path", "")).endswith("::Err")):
+                    return False
+        return True
+
+    def _tail_returns_rest(self, e, env):
+        while e.get("k") == "Block" and "expr" in e and all(self._is_pure_or_error_exit(s) for s in e.get("stmts", [])):
+            e = e["expr"]
+        if e.get("k") == "Call" and str(e["f"].get("path", "")).endswith("::Ok") and e["args"]:
+            a = e["args"][0]
+            return a.get("k") == "Tup" and a.get("es") and self.value(a["es"][0], env) is INPUT
+        if e.get("k") == "Call" and str(e["f"].get("path", "")).endswith("::Err"):
+            return True
+        if e.get("k") == "If" and "else" in e:
+            return self._tail_returns_rest(e["then"], env) and self._tail_returns_rest(e["else"], env)
+        if e.get("k") == "Match" and e.get("src") == "Normal":
+            return all(self._tail_returns_rest(a["body"], env) for a in e["arms"])
+        return False
 
     def closure_set(self, clo, env):
         cenv = {}
